@@ -2,11 +2,13 @@
 // Nothing is assumed about encrypt/decrypt beyond their types: output length and content are arbitrary,
 // either call may fail.  (So every property proved over it holds for CURVE, Noise and any other cipher.)
 pub trait IDataCipher {
-  // (the only ensures: a Vec never holds more than isize::MAX bytes -- Rust allocation invariant)
+  // ghost history: every ciphertext block handed to decrypt so far, in order (a history variable, no behaviour assumed)
+  spec fn dec_inputs(&self) -> Seq<Seq<u8>>;
+  // (the only behavioural ensures: a Vec never holds more than isize::MAX bytes -- Rust allocation invariant)
   fn encrypt(&mut self, plaintext: &[u8]) -> (r: Result<Vec<u8>, ZmqError>)
-    ensures r matches Ok(v) ==> v@.len() <= isize::MAX;
+    ensures r matches Ok(v) ==> v@.len() <= isize::MAX, final(self).dec_inputs() == old(self).dec_inputs();
   fn decrypt(&mut self, ciphertext: &[u8]) -> (r: Result<Vec<u8>, ZmqError>)
-    ensures r matches Ok(v) ==> v@.len() <= isize::MAX;
+    ensures r matches Ok(v) ==> v@.len() <= isize::MAX, final(self).dec_inputs() == old(self).dec_inputs().push(ciphertext@);
 }
 
 // R8: `network_buffer.as_ref().get_u16()` -- Buf::get_u16 on a temporary &[u8] (big endian, does not consume the BytesMut)
@@ -20,3 +22,65 @@ pub proof fn lemma_be16_roundtrip(n: nat)
   requires n <= 0xffff
   ensures be16(to_be16(n)) == n, to_be16(n).len() == 2
 {}
+
+// ---- the record layer of LengthPrefixedFramer on the read side: <len:u16 be><ciphertext of len bytes>
+pub open spec fn rec_complete(s: Seq<u8>) -> bool { s.len() >= 2 && s.len() >= 2 + be16(s.subrange(0, 2)) }
+pub open spec fn rec_len(s: Seq<u8>) -> nat recommends s.len() >= 2 { 2 + be16(s.subrange(0, 2)) }
+pub open spec fn rec_body(s: Seq<u8>) -> Seq<u8> recommends rec_complete(s) { s.subrange(2, rec_len(s) as int) }
+// the first n records of s are complete
+pub open spec fn n_ok(s: Seq<u8>, n: nat) -> bool
+  decreases n
+{ n == 0 || (rec_complete(s) && n_ok(s.skip(rec_len(s) as int), (n - 1) as nat)) }
+pub open spec fn consumed(s: Seq<u8>, n: nat) -> nat
+  decreases n
+{ if n == 0 { 0 } else { rec_len(s) + consumed(s.skip(rec_len(s) as int), (n - 1) as nat) } }
+pub open spec fn bodies(s: Seq<u8>, n: nat) -> Seq<Seq<u8>>
+  decreases n
+{ if n == 0 { Seq::<Seq<u8>>::empty() } else { seq![rec_body(s)] + bodies(s.skip(rec_len(s) as int), (n - 1) as nat) } }
+
+pub proof fn lemma_records_snoc(s: Seq<u8>, n: nat)
+  requires n_ok(s, n), consumed(s, n) <= s.len(), rec_complete(s.skip(consumed(s, n) as int))
+  ensures
+    n_ok(s, n + 1),
+    consumed(s, n + 1) == consumed(s, n) + rec_len(s.skip(consumed(s, n) as int)),
+    consumed(s, n + 1) <= s.len(),
+    bodies(s, n + 1) == bodies(s, n).push(rec_body(s.skip(consumed(s, n) as int))),
+  decreases n
+{
+  if n == 0 {
+    assert(s.skip(0) =~= s);
+    let t = s.skip(rec_len(s) as int);
+    assert(((n + 1) - 1) as nat == 0);
+    assert(n_ok(t, 0));
+    assert(consumed(t, 0) == 0);
+    assert(bodies(t, 0) =~= Seq::<Seq<u8>>::empty());
+    assert(n_ok(s, 1));
+    assert(consumed(s, 1) == rec_len(s) + 0);
+    assert(bodies(s, 1) == seq![rec_body(s)] + bodies(t, 0));
+    assert(bodies(s, 0) =~= Seq::<Seq<u8>>::empty());
+    assert(seq![rec_body(s)] + Seq::<Seq<u8>>::empty() =~= Seq::<Seq<u8>>::empty().push(rec_body(s)));
+  } else {
+    let t = s.skip(rec_len(s) as int);
+    let m = (n - 1) as nat;
+    assert(n_ok(t, m));
+    lemma_consumed_bound(t, m);
+    assert(consumed(s, n) == rec_len(s) + consumed(t, m));
+    assert(t.skip(consumed(t, m) as int) =~= s.skip(consumed(s, n) as int));
+    lemma_records_snoc(t, m);
+    assert(((n + 1) - 1) as nat == m + 1);
+    assert(n_ok(s, n + 1));
+    assert(consumed(s, n + 1) == rec_len(s) + consumed(t, m + 1));
+    assert(bodies(s, n + 1) == seq![rec_body(s)] + bodies(t, m + 1));
+    assert(bodies(s, n) == seq![rec_body(s)] + bodies(t, m));
+    let x = rec_body(t.skip(consumed(t, m) as int));
+    assert(seq![rec_body(s)] + bodies(t, m).push(x) =~= (seq![rec_body(s)] + bodies(t, m)).push(x));
+  }
+}
+
+pub proof fn lemma_consumed_bound(s: Seq<u8>, n: nat)
+  requires n_ok(s, n)
+  ensures consumed(s, n) <= s.len()
+  decreases n
+{
+  if n > 0 { lemma_consumed_bound(s.skip(rec_len(s) as int), (n - 1) as nat); }
+}
